@@ -84,6 +84,18 @@ UsableEvent(e) ==
         IN r = (IF usable THEN (t - e.start) \div e.spacing ELSE -1))
 
 -----------------------------------------------------------------------------
+(* C16: transfer-fee conversions (Anchor and Pinocchio) *)
+TfeeEvent(e) ==
+  LET c == [bps |-> e.bps, max |-> e.maxFee] IN
+  /\ Chk("C16", "excluded_anchor", e.exclA.ok /\ TfExclOK(c, e.x, e.exclA))
+  /\ Chk("C16", "excluded_pinocchio", e.exclP.ok /\ TfExclOK(c, e.x, e.exclP))
+  /\ Chk("C16", "included_anchor", e.inclA.ok => TfInclOK(c, e.x, e.inclA))
+  /\ Chk("C16", "included_pinocchio", e.inclP.ok => TfInclOK(c, e.x, e.inclP))
+  /\ Chk("C16", "same_outcome", e.inclA.ok = e.inclP.ok)
+  \* failure is allowed only when no u64 solution exists; one always exists when need + maxFee fits
+  /\ Chk("C16", "fails_only_without_solution", (~e.inclA.ok) => (AmtMax \prec (e.x ++ e.maxFee)))
+
+-----------------------------------------------------------------------------
 Init == l = 1 /\ TLCSet(7, <<"none", "none">>) /\ TLCSet(8, "none")
 Next ==
   /\ l <= Len(Rec)
@@ -94,6 +106,7 @@ Next ==
        [] e.k = "pqueries" -> PQueriesEvent(e)
        [] e.k = "deltas" -> DeltasEvent(e)
        [] e.k = "maxliq" -> MaxLiqEvent(e)
+       [] e.k = "tfee" -> TfeeEvent(e)
        [] e.k = "view" -> ViewEvent(e)
        [] e.k = "usable" -> UsableEvent(e)
        [] OTHER -> FALSE
